@@ -29,6 +29,8 @@ META["text"] += ' (R8, N) no method keeps state between calls (see C01.R8); the 
 def run(chk):
     idx = chk.idx
     R.rule_stateless(chk, "C12.R8")  # first: its refutations stand even if a later rule cannot read the code
+    r6_dtype(chk)  # (the lints as well)
+    r7_no_input_mutation(chk)
     chk.explain(
         "Each test method is translated (AST -> sympy term, if-conversion, NumPy recipes recognised: exclusive "
         "prefix sum, 1..n index, sample total) and compared with the published formula from the property text by "
@@ -77,8 +79,6 @@ def run(chk):
     chk.ob("C12.R5", f"{REL}:NonnegMean.eta_to_lam", "lam_to_eta.eta_to_lam==id", is_zero(comp2 - eta),
            "lam_to_eta(eta_to_lam(eta, mu), mu) == eta", node=e2l, value=sp.sstr(sp.cancel(comp2))[:120])
 
-    r6_dtype(chk)
-    r7_no_input_mutation(chk)
     # R4 also: the in-place conventions are keyed as published (+inf only where the null mean is negative / the total exceeds N t)
     from .. import nnm_rules as _NR
     for _tf in _NR.facts(chk.idx).values():
